@@ -11,7 +11,9 @@ import (
 	"errors"
 	"fmt"
 	"math/rand"
+	"os"
 	"path/filepath"
+	"runtime/debug"
 	"sort"
 	"strings"
 	"time"
@@ -105,6 +107,7 @@ type simNode struct {
 
 type commitRec struct {
 	height uint64
+	view   uint64
 	block  *aBlock
 	proof  []byte
 }
@@ -118,6 +121,7 @@ type pend struct {
 
 type world struct {
 	r           *rand.Rand
+	ord         *rand.Rand // order of the lists the storage wrapper returns
 	rep         *Report
 	kr          *keyring
 	codec       *codec
@@ -211,7 +215,7 @@ func (n *simNode) onCommit(ctx context.Context, block interfaces.Block, proofByt
 	n.outs = append(n.outs, fmt.Sprintf("OCommit %s %s %s %s", ab.coqBare(), aref.coq(), coqSigs(signers), cBool(seedOk)))
 	cp := make([]byte, len(proofBytes))
 	copy(cp, proofBytes)
-	n.commits = append(n.commits, commitRec{ab.Height, ab, cp})
+	n.commits = append(n.commits, commitRec{ab.Height, aref.View, ab, cp})
 	w.onCommitMonitors(n, ab, aref, signers, cp)
 	for _, fh := range w.failCommit[n.id] {
 		if fh == ab.Height {
@@ -259,6 +263,14 @@ func (n *simNode) apply(evCoq string, desc string, ev evInfo, f func()) {
 			if e := recover(); e != nil {
 				n.outs = append(n.outs, "OPanic")
 				n.panicked = true
+				if os.Getenv("LHV_STACK") != "" {
+					fmt.Fprintf(os.Stderr, "panic in %s: %v\n%s\n", desc, e, debug.Stack())
+					for _, t := range w.trace {
+						if strings.HasPrefix(t, fmt.Sprintf("node %d:", n.id)) && (strings.Contains(t, "garbage") || strings.Contains(t, "VC h=2")) {
+							fmt.Fprintln(os.Stderr, "  TRACE", t)
+						}
+					}
+				}
 				w.rep.finding("C12", "node-panicked", fmt.Sprintf("node %d panicked on %s: %v", n.id, desc, e), w.traceInput())
 			}
 		}()
@@ -500,6 +512,10 @@ func runWorldModeX(cfg *runCfg, name string, kf1 bool, live bool) error {
 			w = directedWorld(r, rep, cfg.seed*100000+2)
 			w.earlyPrepareScript()
 			rep.count("world:directed-early-prepare-script")
+		} else if !kf1 && i == 3 {
+			w = directedWorld(r, rep, cfg.seed*100000+3)
+			w.lazyReaderSweep()
+			rep.count("world:directed-lazy-reader-sweep")
 		} else {
 			w.run()
 		}
@@ -522,13 +538,25 @@ func runWorldModeX(cfg *runCfg, name string, kf1 bool, live bool) error {
 		rep.Extra["stabilisation"] = "after the random prefix: laggards synced to the height being decided, inboxes released, then rounds of (Byzantine traffic; deliver everything pending; if the height is not committed, the deciding members in the lowest view time out together); stall = no commit within view-spread + 2n + 3 rounds"
 	}
 	rep.Rule = fmt.Sprintf("%d random worlds (4-7 members, unit/random/heavy weights, rotation 0/1, Byzantine subsets of weight <= f, 40-260 scheduler steps: deliveries, duplicates, drops, elections, syncs, mutated replays, Byzantine strategies); one case per honest node = its whole event/output/state trace; non-trivial = the node committed at least one block; worlds are distinct by construction (seeded)", runs)
-	cf := newCaseFile("From LH Require Import Prims Quorum Msg Term Corr.\nOpen Scope N_scope.")
-	cf.addShards("nc", "ncase", "n_ok", cases, 40)
-	p := filepath.Join(cfg.outDir, "cases_"+name+".v")
-	if err := cf.write(p); err != nil {
-		return err
+	// one Coq process holds at most perFile traces (memory grows with the number of traces evaluated in one file)
+	const perFile, shard = 480, 40
+	rep.CaseFiles = nil
+	for f, start := 0, 0; start < len(cases) || f == 0; f, start = f+1, start+perFile {
+		end := start + perFile
+		if end > len(cases) {
+			end = len(cases)
+		}
+		cf := newCaseFile("From LH Require Import Prims Quorum Msg Term Corr.\nOpen Scope N_scope.")
+		cf.addShardsFrom("nc", "ncase", "n_ok", cases[start:end], shard, start, start/shard)
+		p := filepath.Join(cfg.outDir, "cases_"+name+".v")
+		if f > 0 {
+			p = filepath.Join(cfg.outDir, fmt.Sprintf("cases_%s_%d.v", name, f))
+		}
+		if err := cf.write(p); err != nil {
+			return err
+		}
+		rep.CaseFiles = append(rep.CaseFiles, p)
 	}
-	rep.CaseFiles = []string{p}
 	return rep.write(cfg.outDir)
 }
 
@@ -551,6 +579,7 @@ func newWorld(r *rand.Rand, rep *Report, seed int64) *world {
 	w := &world{r: r, rep: rep, kr: newKeyring(seed), byz: map[uint64]bool{}, byId: map[uint64]*simNode{}, signed: map[string]bool{},
 		proposedBy: map[uint64]uint64{}, validatedBy: map[uint64][]uint64{}, failCommit: map[uint64][]uint64{}, excl: map[uint64][]uint64{}, chain: map[uint64]*aBlock{}, held: map[uint64]bool{}}
 	w.codec = newCodec(w.kr)
+	w.ord = rand.New(rand.NewSource(seed ^ 0x5bd1e995))
 	w.n = 4 + r.Intn(4)
 	w.weights = make([]uint64, w.n)
 	switch r.Intn(3) {
